@@ -22,6 +22,7 @@ RULE = (
     "mutation of a list-valued payload"
     " Also (added while the seeded-change rounds of DESIGN section 9 ran): Also: B = copy.deepcopy(A), a copies shard per payload type (both directions), a clone of a MetaModule's embedded project edited on its own, and bystander objects (legacy Sampler, short / surplus-CVAL files, fixtures) that stay alive during the case."
 )
+RULE += " Rounds 12-14 of DESIGN section 9 added: files with short int arrays loaded twice (one edited in place; the other, a module built before and one built after unchanged); 160 loaded containers kept alive across garbage collections while 7500 unrelated projects are built and edited; notes of clone() / deepcopy copies lead to the copy's own objects."
 ASSUMPTIONS = [
     "B is independently obtained: never an operand of A's link operations, never inside A (designed couplings are C07/C15/C20's subject)",
     "observable state is vlib.snapshot's snapshot plus the bytes B.read() produces",
